@@ -124,14 +124,14 @@ class UMNDirHandler(DirHandler):
                 self.fileentries.append(linkentry)
                 continue
             if linkentry.selector in fileentriesdict:
-                if linkentry.gettype() == "X":
+                if linkentry.gettype() == "X" or linkentry.gettype() == "-":
                     # It's special code to hide something.
                     hidden = fileentriesdict[linkentry.selector]
                     if hidden in self.fileentries:  # not hidden already
                         self.fileentries.remove(hidden)
                 else:
                     self.mergeentries(fileentriesdict[linkentry.selector], linkentry)
-            elif linkentry.gettype() == "X":
+            elif linkentry.gettype() == "X" or linkentry.gettype() == "-":
                 # Hiding something that is not listed anyway (a file that
                 # was removed, or that nobody can serve): nothing to do.
                 continue
